@@ -1,5 +1,70 @@
-use serde_json::Value;
+use serde_json::{json, Value};
+use text_utils::data::loading::{GenerationStrategy, MultiTrainDataGenerator, TrainDataGenerator};
+use text_utils::data::TrainData;
 
-pub fn dispatch(op: &str, _req: &Value) -> Result<Value, String> {
-    Err(format!("unknown op {op}"))
+struct Gen {
+    items: std::vec::IntoIter<anyhow::Result<TrainData>>,
+    len: usize,
+}
+
+impl Iterator for Gen {
+    type Item = anyhow::Result<TrainData>;
+    fn next(&mut self) -> Option<Self::Item> {
+        self.items.next()
+    }
+    fn size_hint(&self) -> (usize, Option<usize>) {
+        (self.len, Some(self.len))
+    }
+}
+
+impl ExactSizeIterator for Gen {}
+
+pub fn seed_of(req: &Value) -> Result<Option<u64>, String> {
+    match req.get("seed") {
+        None | Some(Value::Null) => Ok(None),
+        Some(v) => v.as_str().ok_or("seed must be a string")?.parse::<u64>().map(Some).map_err(|e| e.to_string()),
+    }
+}
+
+/// input of a TrainData via its Debug rendering (fields are private)
+pub fn input_of(d: &TrainData) -> String {
+    let s = format!("{:?}", d);
+    let a = s.find("input: \"").map(|i| i + 8).unwrap_or(0);
+    let b = s[a..].find('"').map(|i| i + a).unwrap_or(a);
+    s[a..b].to_string()
+}
+
+pub fn dispatch(op: &str, req: &Value) -> Result<Value, String> {
+    match op {
+        "multi_gen" => {
+            let lengths: Vec<usize> = req.get("lengths").and_then(|v| v.as_array()).ok_or("missing lengths")?
+                .iter().map(|x| x.as_u64().unwrap() as usize).collect();
+            let strategy = match req.get("strategy").and_then(|v| v.as_str()).ok_or("missing strategy")? {
+                "Sequential" => GenerationStrategy::Sequential,
+                "Interleaved" => GenerationStrategy::Interleaved,
+                _ => GenerationStrategy::Weighted,
+            };
+            let gens: Vec<TrainDataGenerator> = lengths.iter().enumerate().map(|(s, n)| {
+                let items: Vec<anyhow::Result<TrainData>> =
+                    (0..*n).map(|j| Ok(TrainData::new(format!("s{s}_{j}"), None))).collect();
+                Box::new(Gen { items: items.into_iter(), len: *n }) as TrainDataGenerator
+            }).collect();
+            let total: usize = lengths.iter().sum();
+            let gen = match MultiTrainDataGenerator::new(gens, strategy, seed_of(req)?) {
+                Ok(g) => g,
+                Err(_) => return Ok(json!("Err")),
+            };
+            let mut out = vec![];
+            for (item, src) in gen.take(total + 3) {
+                let d = item.map_err(|e| e.to_string())?;
+                let name = input_of(&d);
+                let mut it = name[1..].split('_');
+                let s: usize = it.next().unwrap().parse().unwrap();
+                let j: usize = it.next().unwrap().parse().unwrap();
+                out.push(json!([s, j, src]));
+            }
+            Ok(json!(out))
+        }
+        _ => crate::ops7::dispatch(op, req),
+    }
 }
